@@ -3,11 +3,11 @@
 P=$1; shift
 cd /repo || exit 2
 if [ -n "$(git status --porcelain)" ]; then echo "/repo not clean"; exit 2; fi
-git apply "$P" 2>/dev/null || git apply -3 "$P" >/dev/null 2>&1 || patch -p1 --fuzz=3 < "$P" >/dev/null 2>&1 || { echo "PATCH-DOES-NOT-APPLY"; git checkout -- .; git clean -fdq; exit 2; }
+git apply "$P" 2>/dev/null || git apply -3 "$P" >/dev/null 2>&1 || patch -p1 --fuzz=3 < "$P" >/dev/null 2>&1 || { echo "PATCH-DOES-NOT-APPLY"; git reset -q --hard HEAD; git clean -fdq; exit 2; }
 for id in "$@"; do
   out=$(cd /verif && timeout 600 ./run.sh $id quick 2>/dev/null)
   rc=$?
   n=$(echo "$out" | grep -c '^VIOLATION')
   echo "$id rc=$rc violations_reported=$n :: $(echo "$out" | tail -1)"
 done
-git -C /repo checkout -- . ; git -C /repo clean -fdq
+git -C /repo reset -q --hard HEAD; git -C /repo clean -fdq
